@@ -3,7 +3,7 @@
 import json, os, sys
 V = os.path.dirname(os.path.dirname(os.path.abspath(__file__)))
 rows = []
-for sid in sorted(os.listdir(os.path.join(V, "seeded"))):
+for sid in sorted(s for s in os.listdir(os.path.join(V, "seeded")) if not s.startswith("_")):
     m = json.load(open(os.path.join(V, "seeded", sid, "meta.json")))
     v = m.get("checks_run", {})
     rows.append((sid, m["breaks_property"], " ".join(f"{p}:{r['verdict']}" for p, r in sorted(v.items()))))
